@@ -95,7 +95,18 @@ func runC12(c *mon.Case) {
 		return sc
 	}
 	base := mk()
-	br := eng.RunScen(c.T, base, eng.Hooks{OnLeak: leakHook(c, base)})
+	br, frozen := eng.RunScenGuarded(c.T, base, eng.Hooks{OnLeak: leakHook(c, base)}, 60*time.Second)
+	if frozen {
+		// Without any Close the bubble's clock stopped: a goroutine of the
+		// connection waits on a mutex that nothing releases. Whether Close
+		// still returns in that state is exactly this property, so the
+		// scenario is repeated on the real clock with a Close by both ends
+		// after the fault phase.
+		c12Frozen.Store(true)
+		c.Shard.Count("virtual_time_freezes", 1)
+		runC12VariantIn(c, mk(), closeVariant{At: 35 * time.Second, Who: "both", Transport: "ok"}, false)
+		return
+	}
 	if br.ConnErrC != nil || br.ConnErrS != nil {
 		c.Shard.Violate("handshake-failed-clean-link", fmt.Sprintf("client=%v server=%v", br.ConnErrC, br.ConnErrS), scenReplay(base, br))
 		return
